@@ -148,6 +148,14 @@ def spec_outcome(kinds, params):
 # ----------------------------------------------------------------------------------------------
 # literal rendering (trusted part of the harness; cross-checked by "literal AST == bound AST")
 
+class Lit(str):
+    """a quoted string literal token of a generated statement that remembers its raw content"""
+    def __new__(cls, raw, dq=False):
+        o = super().__new__(cls, qstr(raw, dq))
+        o.raw_value, o.dq = raw, dq
+        return o
+
+
 def qstr(s, dq=False):
     if dq:
         return '"' + s.replace("\\", "\\\\").replace('"', '\\"') + '"'
@@ -241,9 +249,9 @@ class Gen:
     def lit_str(self, hint):
         rng = self.rng
         if hint == "int" and rng.random() < 0.6:
-            return qstr(str(rng.choice(INTS)))
+            return Lit(str(rng.choice(INTS)))
         s = rng.choice(BENIGN) if rng.random() < 0.6 else rng.choice(HOSTILE)
-        return qstr(s, rng.random() < 0.15)
+        return Lit(s, rng.random() < 0.15)
 
     def value(self, kind, ctx, hint, allow_null=True):
         rng = self.rng
@@ -272,7 +280,7 @@ class Gen:
         elif rng.random() < 0.05:
             self.raw("%d" % rng.choice([0, 1700000000, -5]))
         else:
-            self.raw(qstr(rng.choice(TIMES_ABS) if rng.random() < 0.75 else rng.choice(TIMES_REL)))
+            self.raw(Lit(rng.choice(TIMES_ABS) if rng.random() < 0.75 else rng.choice(TIMES_REL)))
 
     def time_clause(self):
         rng = self.rng
@@ -481,6 +489,97 @@ def gen_statement(rng):
 
 def stmt_text(tokens):
     return " ".join(t if isinstance(t, str) else "?" for t in tokens)
+
+
+WS_BASES = ["order service", "a b", "multi word text here", "x y z", " lead", "trail ", "two  spaces", "tab\there", "nl\nhere"]
+KEYWORDS = {"SELECT", "SHOW", "TOP", "FROM", "STREAM", "MEASURE", "TRACE", "PROPERTY", "IN", "ON", "STAGES", "TIME", "BETWEEN",
+            "AND", "OR", "WHERE", "GROUP", "BY", "ORDER", "ASC", "DESC", "LIMIT", "OFFSET", "WITH", "QUERY_TRACE", "NOT",
+            "HAVING", "MATCH", "AGGREGATE", "NULL"}
+
+
+def vary_ws(rng, s):
+    """same words, different runs of whitespace"""
+    out = re.sub(r"\s+", lambda m: rng.choice(["  ", "\t", "\n", " \n", "   ", "\r\n", " ", "\t "]), s)
+    return out if out != s else s.replace(" ", "  ") if " " in s else s + " "
+
+
+def join_tokens(rng, tokens, plain=True):
+    if plain:
+        return stmt_text(tokens)
+    out = []
+    for t in tokens:
+        out.append(t if isinstance(t, str) else "?")
+        out.append(rng.choice([" ", " ", "  ", "\n", "\t", " \n  "]))
+    return "".join(out[:-1])
+
+
+def gen_sequence(rng):
+    """2-4 near-duplicate statements for one shared prepared-statement cache.
+    Returns (form, cache size, [(text, tokens, params)]) — tokens are what the literal is rendered from."""
+    while True:
+        form = rng.choice(FORMS)
+        g = Gen(rng, rng.choice([0.3, 0.55, 0.55, 0.8]))
+        g.topn() if form == "topn" else g.select(form)
+        toks = g.tok
+        lits = [i for i, t in enumerate(toks) if isinstance(t, Lit) and i > 0 and toks[i - 1] not in ("TIME",)
+                and not re.fullmatch(r"'(simple|standard|keyword|url|AND|OR)'", t)]
+        # value literals only (not TIME values, not MATCH options)
+        lits = [i for i in lits if not any(isinstance(x, str) and x.upper() in ("TIME", "BETWEEN") for x in toks[max(0, i - 2):i])]
+        if lits and any(not isinstance(t, str) for t in toks):
+            break
+    mode = rng.choice(["wslit", "wslit", "wslit", "caselit", "tokws", "kwcase", "suffix", "tail", "head", "same", "qmark"])
+    variants = []          # (text, tokens)
+
+    def with_lit(i, raw):
+        t2 = list(toks)
+        t2[i] = Lit(raw, toks[i].dq)
+        return t2
+
+    if mode == "wslit":
+        i = rng.choice(lits)
+        base = rng.choice(WS_BASES)
+        seen = []
+        for _ in range(4):
+            v = base if not seen else vary_ws(rng, base)
+            if v not in seen:
+                seen.append(v)
+        variants = [(None, with_lit(i, v)) for v in seen]
+    elif mode == "caselit":
+        i = rng.choice(lits)
+        variants = [(None, with_lit(i, v)) for v in ["Order Service", "order service", "ORDER SERVICE", "order Service"]]
+    elif mode == "tokws":
+        variants = [(join_tokens(rng, toks, plain=(k == 0)), toks) for k in range(4)]
+    elif mode == "kwcase":
+        def recase(f):
+            return [f(t) if isinstance(t, str) and not isinstance(t, Lit) and t.upper() in KEYWORDS else t for t in toks]
+        variants = [(None, toks), (None, recase(str.lower)), (None, recase(str.upper)), (None, recase(str.capitalize))]
+    elif mode == "suffix":
+        variants = [(None, toks)] + [(stmt_text(toks) + sfx, toks) for sfx in rng.sample([";", " ;", " -- c", " /* c */", " #", " //", "\n-- c\n"], 3)]
+    elif mode in ("tail", "head"):
+        i = lits[-1] if mode == "tail" else lits[0]
+        raw = toks[i].raw_value
+        variants = [(None, toks), (None, with_lit(i, raw + "x")), (None, with_lit(i, raw + " ")), (None, with_lit(i, raw[:-1] if raw else "y"))]
+    elif mode == "qmark":
+        # a placeholder vs a quoted question mark at the same place
+        i = rng.choice(lits)
+        t2 = with_lit(i, "?")
+        variants = [(None, toks), (None, t2), (None, with_lit(i, "??")), (None, with_lit(i, "'?'"))]
+    else:
+        variants = [(None, toks)] * 3
+    variants = [(txt if txt is not None else stmt_text(tk), tk) for txt, tk in variants]
+    n = rng.choice([2, 3, 3, 4])
+    order = list(range(min(n, len(variants))))
+    steps = [variants[k] for k in order]
+    # come back to an earlier spelling after a later one was cached (or evicted it)
+    if rng.random() < 0.6:
+        steps.append(variants[0])
+    if rng.random() < 0.3:
+        steps.insert(1, variants[0])
+    out = []
+    for txt, tk in steps[:5]:
+        phs = [t for t in tk if not isinstance(t, str)]
+        out.append((txt, tk, gen_params(rng, phs, rng.choice(["good", "good", "good", "good", "bad", "count"]))))
+    return form, rng.choice([1, 2, 2, 8]), out
 
 
 def rand_str(rng, hint=None):
@@ -807,7 +906,7 @@ class C20(vlib.Spec):
             "kind_codes"]]
     go_driver = "c20"
     lean_driver = "C20"
-    counts = {"quick": int(os.environ.get("VERIF_C20_N", "6000")), "thorough": 300000}
+    counts = {"quick": int(os.environ.get("VERIF_C20_N", "6000")), "thorough": 100000}
     trusted_base = [
         "Lean 4.33.0 kernel",
         "participle lexer/parser (ParseQuery): the model starts from the parsed template AST",
@@ -854,7 +953,7 @@ class C20(vlib.Spec):
         for i in range(len(protos)):
             if rng.random() < 0.06:
                 form, tokens, phs = protos[i][:3]
-                protos.insert(rng.randrange(i, len(protos) + 1),
+                protos.insert(min(len(protos), i + rng.randrange(14, 40)),
                               (form, tokens, phs, gen_params(rng, phs, "good"), gen_params(rng, phs, rng.choice(["good", "bad"])), rng.random() < 0.1))
         protos = protos[:n]
         stmts = sorted({stmt_text(p[1]) for p in protos})
@@ -866,9 +965,29 @@ class C20(vlib.Spec):
             else:
                 self.count("gen:unparsable-statement")
         lines = []
+        # sequences of near-duplicate statements through one fresh cache (a fifth of the budget)
+        nseq = max(1, n // 5)
+        seqs = [gen_sequence(rng) for _ in range(nseq)]
+        texts = sorted({st[0] for sq in seqs for st in sq[2]} - set(asts))
+        for t, o in zip(texts, vlib.run_lines(go, ["ast " + hx(t) for t in texts], env=vlib.goenv())):
+            asts[t] = o[2:] if o.startswith("T=") else "!"
+        seq_lines = []
+        for form, size, steps in seqs:
+            fields = []
+            for txt, tk, ps in steps:
+                ast = asts[txt]
+                lit = "-"
+                if ast != "!":
+                    kinds = [t[1] for t in tk if not isinstance(t, str)]
+                    if spec_outcome(kinds, ps)[0] == "ok":
+                        toks = [t if isinstance(t, str) else ("ph", t[1], t[2][0]) for t in tk]
+                        lit = hx(render_literal(toks, ps))
+                fields += [hx(txt), ast, lit, enc_params(ps)]
+            seq_lines.append("seq.%s %d %s" % (form, size, " ".join(fields)))
+        protos = protos[:max(1, n - nseq)]
         for form, tokens, phs, p1, p2, dq in protos:
             st = stmt_text(tokens)
-            if st not in asts:
+            if asts.get(st, "!") == "!":
                 continue
             kinds = [t[1] for t in phs]
             lits = []
@@ -882,13 +1001,22 @@ class C20(vlib.Spec):
                 else:
                     lits.append("-")
             lines.append("bind.%s %s %s %s %s %s %s" % (form, hx(st), asts[st], lits[0], lits[1], enc_params(p1), enc_params(p2)))
-        return lines
+        # interleave the sequences with the single-statement cases
+        step = max(1, len(lines) // max(1, len(seq_lines)))
+        out = []
+        for i, l in enumerate(lines):
+            out.append(l)
+            if i % step == step - 1 and seq_lines:
+                out.append(seq_lines.pop())
+        return out + seq_lines
 
     # -- oracle -----------------------------------------------------------------------------
     def oracle(self, line, g):
         f = line.split()
         if g.startswith("PANIC") or g.startswith("CRASH"):
             return ("violation", "implementation crashed: " + g[:300])
+        if f[0].startswith("seq"):
+            return self.oracle_seq(f, g)
         if not f[0].startswith("bind"):
             return None
         if "##" not in g:
@@ -957,6 +1085,54 @@ class C20(vlib.Spec):
                 return ("violation", "BindParams on an already bound grammar: " + kv["REBIND"])
         for k in ("RC1", "RC2", "RC1X"):
             self.count("cache:" + {"m": "miss", "h": "hit", "b": "bypass", "r": "reparse", "?": "disabled"}.get(kv[k][0], kv[k][0]))
+        return None
+
+    def oracle_seq(self, f, g):
+        """every execution through the shared cache must behave as its OWN text demands: the template served is the
+        template of that text, the request is the request of that text with the values written as literals."""
+        if "##" not in g:
+            return ("violation", "driver could not run the sequence: " + g[:200])
+        model_part, oracle_part = g.split(" ## ")
+        kv = dict(x.split("=", 1) for x in model_part.split() + oracle_part.split())
+        nsteps = (len(f) - 2) // 4
+        texts = {}
+        for k in range(nsteps):
+            stmt, ast, lit, ps = f[2 + 4 * k: 6 + 4 * k]
+            n = str(k + 1)
+            text = bytes.fromhex(stmt).decode("utf-8")
+            how, td, rc, rl, rb, b = (kv[x + n] for x in ("HOW", "TD", "RC", "RL", "RB", "B"))
+            self.count("seq-step:" + {"m": "miss", "h": "hit", "b": "bypass", "r": "reparse", "e": "parse-error", "?": "disabled"}.get(how, how))
+            where = "step %s of %d (%s) %r" % (n, nsteps, how, text[:160])
+            if ast == "!":
+                if rc != "PREPAREERR":
+                    return ("violation", "%s does not parse, yet the cache served a statement for it: %s" % (where, rc))
+                continue
+            if rc == "PREPAREERR":
+                return ("violation", "%s parses, yet the cache path failed to prepare it" % where)
+            if td != "1":
+                return ("violation", "%s was served a template that is not the template of its own text" % where)
+            prev = texts.get(text)
+            if prev is not None and prev != kv["PT" + n]:
+                return ("violation", "%s: same text, different template than at its earlier execution" % where)
+            texts[text] = kv["PT" + n]
+            kinds = ast_positions(parse_tree(ast))
+            want = spec_outcome(kinds, dec_params(ps))
+            self.count("seq-set:" + want[0])
+            if want[0] != "ok":
+                if not rc.startswith("ERR:") or int(rc.split(":")[2]) != want[1]:
+                    return ("violation", "%s: parameters must be rejected (%s at #%d), cache path gave %s" % (where, want[0], want[1], rc))
+                if rc != b:
+                    return ("violation", "%s: cache path and one-shot bind reject differently: %s vs %s" % (where, rc, b))
+                continue
+            if rc.startswith("ERR:"):
+                return ("violation", "%s: acceptable parameters rejected through the cache: %s" % (where, rc))
+            if b.startswith("ERR:"):
+                return ("violation", "%s: acceptable parameters rejected by the one-shot bind: %s" % (where, b))
+            tol = 10000 if now_dependent(parse_tree(b)) else 0
+            if not same_request(rl, rc, tol):
+                return ("violation", "%s: request through the shared cache differs from the request of its own literal text: %s vs %s" % (where, rc, rl))
+            if not same_request(rb, rc, tol):
+                return ("violation", "%s: request through the shared cache differs from the one-shot bind of its own text: %s vs %s" % (where, rc, rb))
         return None
 
     def compare(self, line, g, l):
